@@ -83,6 +83,8 @@ CAUGHT = {
     "C18-m8": ["C18 quick (after the marking written on the rule was added as a variant)"],
     "C18-m9": ["C18 quick (after the trace check learnt that the decision shown must be one of the cell of from_state)"],
     "C13-m7": ["C13 quick (after greedy repetitions with a separator were added)"], "C13-m8": ["C13 quick"],
+    "C01-m7": ["C01 quick (SLR)", "C05 quick"], "C01-m8": ["C01 quick (sentence rejected under lexical ambiguity; GLR model differs)"],
+    "C01-m9": ["C01 quick (after the unit with user recognizers and list inputs was added)", "C10 quick"],
     "C17-m1": ["C17 quick"], "C17-m2": ["C07 quick (scanner with consume_input=False); not C17 itself (its scope has no terminal priorities)"], "C17-m3": ["C17 quick"],
 }
 
